@@ -8,6 +8,14 @@ NOTE: We aim to make the computation of differential operaotrs more efficient
 import torch
 
 
+def _autograd(out, vari):
+    """Derivative of out w.r.t. vari (with graph); zeros if out does not depend on vari."""
+    if not out.requires_grad:
+        return torch.zeros_like(vari)
+    grad = torch.autograd.grad(out, vari, create_graph=True, allow_unused=True)[0]
+    return torch.zeros_like(vari) if grad is None else grad
+
+
 def laplacian(model_out, *derivative_variable, grad=None):
     """Computes the laplacian of a network with respect to the given variable
 
@@ -33,15 +41,13 @@ def laplacian(model_out, *derivative_variable, grad=None):
     )
     for vari in derivative_variable:
         if grad is None or len(derivative_variable) > 1:
-            grad = torch.autograd.grad(model_out.sum(), vari, create_graph=True)[0]
+            grad = _autograd(model_out.sum(), vari)
         # We have to check if the model is linear w.r.t. the variable, or else we get an err
         # when we compute the second derivative. If it is linear we can just return zeros
         if grad.grad_fn is None:
             continue
         for i in range(vari.shape[-1]):
-            D2u = torch.autograd.grad(
-                grad.narrow(-1, i, 1).sum(), vari, create_graph=True
-            )[0]
+            D2u = _autograd(grad.narrow(-1, i, 1).sum(), vari)
             laplacian += D2u.narrow(-1, i, 1)
     return laplacian
 
@@ -63,7 +69,7 @@ def grad(model_out, *derivative_variable):
     """
     grad = []
     for vari in derivative_variable:
-        new_grad = torch.autograd.grad(model_out.sum(), vari, create_graph=True)[0]
+        new_grad = _autograd(model_out.sum(), vari)
         grad.append(new_grad)
     return torch.cat(grad, dim=-1)
 
@@ -159,9 +165,7 @@ def div(model_out, *derivative_variable):
     var_dim = 0
     for vari in derivative_variable:
         for i in range(vari.shape[-1]):
-            Du = torch.autograd.grad(
-                model_out.narrow(-1, var_dim + i, 1).sum(), vari, create_graph=True
-            )[0]
+            Du = _autograd(model_out.narrow(-1, var_dim + i, 1).sum(), vari)
             divergence = divergence + Du.narrow(-1, i, 1)
         var_dim += i + 1
     return divergence
@@ -252,9 +256,7 @@ def jac(model_out, *derivative_variable):
     for i in range(model_out.shape[1]):
         Du_i = []
         for vari in derivative_variable:
-            Du_i.append(
-                torch.autograd.grad(model_out[:, i].sum(), vari, create_graph=True)[0]
-            )
+            Du_i.append(_autograd(model_out[:, i].sum(), vari))
         Du_rows.append(torch.cat(Du_i, dim=1))
     Du = torch.stack(Du_rows, dim=1)
     return Du
@@ -317,7 +319,7 @@ def partial(model_out, *derivative_variables):
     for inp in derivative_variables:
         if du.grad_fn is None:
             return torch.zeros_like(inp)
-        du = torch.autograd.grad(du.sum(), inp, create_graph=True)[0]
+        du = _autograd(du.sum(), inp)
     return du
 
 
